@@ -322,3 +322,71 @@ def write_events(func, resolve_callee=None):
                     yield a, "refarg", aps, n.get("callee")
             if resolved is not None:
                 yield n, "call", [], (cid, binding)
+
+
+# ------------------------------------------------------------------ de-hoisting
+def single_defs(func):
+    """locals that are declared once with an initialiser and never written afterwards -> {decl key: init node}"""
+    cache = getattr(func, "_single_defs", None)
+    if cache is not None:
+        return cache
+    decls = {}
+    for n in func.nodes():
+        if n["k"] == "decl":
+            for d in n["decls"]:
+                if d.get("d"):
+                    decls.setdefault(d["d"], []).append(d)
+    written = set()
+    for n in func.nodes():
+        tgt = None
+        if n["k"] in ("assign", "cassign"):
+            tgt = n["lhs"]
+        elif n["k"] == "un" and n.get("op") in ("++", "--"):
+            tgt = n["e"]
+        elif n["k"] == "opcall" and n.get("op") in ("=", "+=", "-=", "|=", "&=", "^=", "++", "--", "<<=", ">>=") and n["args"]:
+            tgt = n["args"][0]
+        elif n["k"] == "un" and n.get("op") == "&":
+            tgt = n["e"]                      # address taken: may be written through the pointer
+        if tgt is not None and tgt.get("k") == "ref" and tgt.get("d"):
+            written.add(tgt["d"])
+        if n["k"] == "mcall" and n.get("mconst") is False and n.get("obj") is not None and n["obj"].get("k") == "ref" and n["obj"].get("d") and not is_pure_accessor(n):
+            written.add(n["obj"]["d"])
+        if n["k"] in ("call", "mcall", "ctor"):
+            pk = n.get("pk") or ""
+            for i, a in enumerate(n.get("args", [])):
+                if a is not None and a.get("k") == "ref" and a.get("d") and i < len(pk) and pk[i] == "r":
+                    written.add(a["d"])
+    out = {}
+    for k, ds in decls.items():
+        if len(ds) == 1 and ds[0].get("init") is not None and k not in written:
+            out[k] = ds[0]["init"]
+    func._single_defs = out
+    return out
+
+
+def expand(func, node, keep=(), depth=0):
+    """copy of an expression in which every reference to a hoisted local (declared once with an initialiser, never written,
+    and not named in `keep`) is replaced by its initialiser; casts and copy constructors are dropped. Rules that match on the
+    spelling of an expression use this so that `const T x = e; ... x ...` and `... e ...` look the same."""
+    if node is None or not isinstance(node, dict):
+        return node
+    k = node.get("k")
+    if k in ("cast", "defarg", "definit", "stdinit", "opaque") and node.get("e") is not None:
+        return expand(func, node["e"], keep, depth)
+    if k == "ctor" and node.get("copy") and len(node.get("args", [])) == 1:
+        return expand(func, node["args"][0], keep, depth)
+    if k == "ref" and node.get("dk") == "local" and node.get("n") not in keep and depth < 6:
+        init = single_defs(func).get(node.get("d"))
+        if init is not None:
+            return expand(func, init, keep, depth + 1)
+    out = {}
+    for key, v in node.items():
+        if isinstance(v, dict):
+            out[key] = expand(func, v, keep, depth)
+        elif isinstance(v, list):
+            out[key] = [expand(func, x, keep, depth) if isinstance(x, dict) else x for x in v]
+        else:
+            out[key] = v
+    return out
+
+
